@@ -154,6 +154,8 @@ type vwNodeCfg struct {
 	pv       uint8
 	compress bool
 	udp      int
+	// key history applied to the node's keyring once it exists: {0,k} AddKey, {1,k} UseKey, {2,k} RemoveKey (ids)
+	keyOps [][2]int
 }
 
 func vwNode(c vwNodeCfg) (*Memberlist, *vwTap, *vwUser) {
@@ -219,6 +221,17 @@ func vwNode(c vwNodeCfg) (*Memberlist, *vwTap, *vwUser) {
 			panic(err)
 		}
 	}
+	for _, op := range c.keyOps {
+		// the calls' own results are the keyring family's business; what counts here is which keys traffic opens under afterwards
+		switch op[0] {
+		case 0:
+			_ = m.config.Keyring.AddKey(vwKeys[op[1]])
+		case 1:
+			_ = m.config.Keyring.UseKey(vwKeys[op[1]])
+		case 2:
+			_ = m.config.Keyring.RemoveKey(vwKeys[op[1]])
+		}
+	}
 	m.Shutdown() // stop the background goroutines: the node is used as a host for direct calls
 	synctest.Wait() // ... and make sure they are gone before anything is fed to the node
 	return m, tap, u
@@ -260,6 +273,11 @@ func vwCfg(kind, udp int, s, r vwNodeCfg, pm int, class int) []int64 {
 	v = append(v, vwInts(r.keys)...)
 	v = append(v, vwCounted([]byte(s.label))...)
 	v = append(v, vwCounted([]byte(r.label))...)
+	// the receiver's key history (the installed set at the time of arrival is worked out by the checker)
+	v = append(v, int64(2*len(r.keyOps)))
+	for _, op := range r.keyOps {
+		v = append(v, int64(op[0]), int64(op[1]))
+	}
 	return v
 }
 
@@ -459,20 +477,33 @@ func vwEnc(t messageType, v any) []byte {
 
 var vwAckSeq uint32
 
-func vwOneMsg(r *vfRng) []byte {
+func vwOneMsg(r *vfRng) []byte { return vwOneMsgKind(r, r.n(9)) }
+
+// a message of the given kind (0 ping, 1 ack, 2 nack, 3 indirect ping, 4 suspect, 5 alive, 6 dead, 7.. user).  Pings and
+// indirect pings come bare (a sequence number only) and as the probe path writes them: addressed to the receiver by
+// name, with the address / port / name to reply to, node names from one character to a long host name
+func vwOneMsgKind(r *vfRng, kind int) []byte {
 	name := []string{"", "n", string(bytes.Repeat([]byte{'x'}, 200))}[r.n(3)]
 	meta := [][]byte{nil, {1}, bytes.Repeat([]byte{0xee}, 512)}[r.n(3)]
 	inc := []uint32{0, 1, 1 << 31, 1<<32 - 1}[r.n(4)]
-	switch r.n(9) {
+	var srcAddr []byte
+	var srcPort uint16
+	var srcNode string
+	if r.chance(60) {
+		srcAddr, srcPort = []byte{10, 0, 0, byte(60 + r.n(4))}, uint16(7000+r.n(1000))
+		srcNode = []string{"", "s", "node-17.dc1.example.internal", string(bytes.Repeat([]byte{'y'}, 120))}[r.n(4)]
+	}
+	switch kind {
 	case 0:
-		return vwEnc(pingMsg, &ping{SeqNo: uint32(r.n(1000)), Node: ""})
+		return vwEnc(pingMsg, &ping{SeqNo: uint32(r.n(1000)), Node: []string{"", "rcv"}[r.n(2)], SourceAddr: srcAddr, SourcePort: srcPort, SourceNode: srcNode})
 	case 1:
 		vwAckSeq++
 		return vwEnc(ackRespMsg, &ackResp{SeqNo: 7001 + vwAckSeq%390, Payload: meta})
 	case 2:
 		return vwEnc(nackRespMsg, &nackResp{SeqNo: 7000})
 	case 3:
-		return vwEnc(indirectPingMsg, &indirectPingReq{SeqNo: uint32(r.n(1000)), Target: []byte{10, 0, 0, 9}, Port: 7946, Node: "t", Nack: false})
+		return vwEnc(indirectPingMsg, &indirectPingReq{SeqNo: uint32(r.n(1000)), Target: []byte{10, 0, 0, 9}, Port: 7946, Node: []string{"t", "target-3.dc1.example.internal"}[r.n(2)], Nack: false,
+			SourceAddr: srcAddr, SourcePort: srcPort, SourceNode: srcNode})
 	case 4:
 		return vwEnc(suspectMsg, &suspect{Incarnation: inc, Node: "q" + name, From: name})
 	case 5:
@@ -581,18 +612,25 @@ func vwGenuine(r *vfRng, forceEnc bool) *vwSent {
 	if len(keys) > 0 && r.chance(10) {
 		rc.vin = false
 	}
-	sm, stap, _ := vwNode(s)
 	pm := r.pick([]int{0, 5, 6}) // 0: destination unknown; else PMax+1
 	if forced != nil {
 		pm = 0 // no checksum header: the plaintext is the message itself
 	}
-	var node *Node
-	if pm > 0 {
-		node = &Node{Name: "10.0.0.1", Addr: []byte{10, 0, 0, 1}, Port: 7946, PMax: uint8(pm - 1)}
-	}
 	msg, parts := vwMsg(r)
 	if forced != nil {
 		msg, parts = forced, [][]byte{forced}
+	}
+	return vwSend(s, rc, pm, msg, parts)
+}
+
+// one real send of msg by a node configured as s to a destination of protocol maximum pm-1 (0: unknown to the sender);
+// rc is the receiver the packet is meant for
+func vwSend(s, rc vwNodeCfg, pm int, msg []byte, parts [][]byte) *vwSent {
+	keys, label, pv := s.keys, s.label, s.pv
+	sm, stap, _ := vwNode(s)
+	var node *Node
+	if pm > 0 {
+		node = &Node{Name: "10.0.0.1", Addr: []byte{10, 0, 0, 1}, Port: 7946, PMax: uint8(pm - 1)}
 	}
 	stap.take()
 	if err := sm.rawSendMsgPacket(Address{Addr: "10.0.0.1:7946", Name: "x"}, node, msg); err != nil {
@@ -633,6 +671,47 @@ func vwGenuine(r *vfRng, forceEnc bool) *vwSent {
 	vwCollectDecomp(inner, 6, &out.oracles)
 	vwCollectDecomp(msg, 6, &out.oracles)
 	return out
+}
+
+// the stages of turning encryption on (or off) in a running cluster: the receiver has a keyring and does not insist on
+// incoming encryption; the sender has no keys at all / has keys but still sends in clear / already seals.  Every
+// message type in turn, alone (with and without the checksum header) and inside a compound: each pair is a compatible
+// configuration, so the receiver must recover exactly what was sent
+func vwTransition(r *vfRng, idx int) *vwSent {
+	label := vwLabels[r.pick([]int{0, 0, 2, 5})]
+	keys := []int{1 + r.n(3)}
+	if r.chance(50) {
+		keys = append(keys, 4)
+	}
+	pv := uint8(r.pick([]int{1, 2, 5}))
+	s := vwNodeCfg{name: "snd", label: label, keys: keys, vout: false, vin: r.chance(50), pv: pv, compress: r.chance(20)}
+	rk := append([]int(nil), keys...)
+	if len(rk) > 1 && r.chance(50) {
+		rk[0], rk[1] = rk[1], rk[0]
+	}
+	switch idx % 3 {
+	case 0:
+		s.keys = nil
+	case 1:
+	default:
+		s.vout = true
+	}
+	rc := vwNodeCfg{name: "rcv", label: label, keys: rk, vout: r.chance(50), vin: false, pv: pv, secret: len(rk) == 1 && r.chance(30)}
+	pm := []int{0, 5, 6, 0}[(idx/30)%4]
+	kind := (idx / 3) % 10
+	var msg []byte
+	var parts [][]byte
+	vwAckSeq = 0
+	if kind == 9 {
+		for i, n := 0, 2+r.n(4); i < n; i++ {
+			parts = append(parts, vwOneMsg(r))
+		}
+		msg = makeCompoundMessage(parts).Bytes()
+	} else {
+		msg = vwOneMsgKind(r, kind)
+		parts = [][]byte{msg}
+	}
+	return vwSend(s, rc, pm, msg, parts)
 }
 
 type vwFailReader struct{}
@@ -787,6 +866,28 @@ func vwCaseFrom(kind, class int, g *vwSent, rcfg vwNodeCfg, pkt []byte, st *vfSt
 	return c
 }
 
+// a history of keyring calls on a receiver; k0 is the key the traffic in flight was sealed under
+func vwKeyHistory(r *vfRng, k0 int) [][2]int {
+	var ops [][2]int
+	for i, n := 0, r.n(5); i < n; i++ {
+		ops = append(ops, [2]int{r.pick([]int{0, 0, 1, 2}), 1 + r.n(4)})
+	}
+	if r.chance(60) {
+		// the sender's key is retired: another key is installed and made the primary, the old key is removed;
+		// in between somebody may have installed the old key once more
+		o := 1 + k0%4
+		ops = append(ops, [2]int{0, o}, [2]int{1, o})
+		for j, n := 0, r.n(3); j < n; j++ {
+			ops = append(ops, [2]int{0, k0})
+		}
+		ops = append(ops, [2]int{2, k0})
+		if r.chance(15) {
+			ops = append(ops, [2]int{0, k0}) // ... and it comes back
+		}
+	}
+	return ops
+}
+
 func vwFlip(b []byte, pos int, bit uint) []byte {
 	o := append([]byte(nil), b...)
 	if pos < len(o) {
@@ -851,6 +952,15 @@ func vwTamper(r *vfRng, st *vfStats) []vfCase {
 		rc7.keys = []int{1}
 	}
 	add(7, rc7, g.wire, nil)
+	// 10: the packet is in flight while the receiver's keyring changes: keys are added (also ones that are installed
+	// already: an install command that is run again), another key becomes the primary, keys are removed.  What counts on
+	// arrival is whether the key the packet was sealed under is installed THEN
+	for k := 0; k < 2; k++ {
+		rc10 := rc
+		rc10.secret = false
+		rc10.keyOps = vwKeyHistory(r, g.s.keys[0])
+		add(10, rc10, g.wire, nil)
+	}
 	// 8: plaintext traffic to a verifying receiver
 	body, _ := vwStripLabel(g.wire)
 	_ = body
@@ -1061,6 +1171,16 @@ func vwBudget(r *vfRng, st *vfStats) vfCase {
 	rx := &vwRx{rm, rtap, ru}
 	peerPMax := uint8(4 + r.n(2))
 	sm.aliveNode(&alive{Incarnation: 1, Node: "10.0.0.1", Addr: []byte{10, 0, 0, 1}, Port: 7946, Vsn: []uint8{1, peerPMax, 2, 0, 0, 0}}, nil, false)
+	// a cluster in the middle of an upgrade: further peers, each speaking up to its own protocol version (the checksum
+	// header goes only to those that understand it), and a gossip round that visits several of them
+	if r.chance(70) {
+		for j, np := 0, 1+r.n(4); j < np; j++ {
+			pmax := uint8(r.pick([]int{2, 3, 4, 4, 5, 5, 5}))
+			ip := []byte{10, 0, 0, byte(2 + j)}
+			sm.aliveNode(&alive{Incarnation: 1, Node: net.IP(ip).String(), Addr: ip, Port: 7946, Vsn: []uint8{1, pmax, 2, 0, 0, 0}}, nil, false)
+		}
+		sm.config.GossipNodes = 1 + r.n(5)
+	}
 	sm.broadcasts.Reset()
 	// queued membership broadcasts: unique payloads carrying an id
 	nb := r.pick([]int{0, 5, 40, 300})
@@ -1167,7 +1287,7 @@ func vwBudget(r *vfRng, st *vfStats) vfCase {
 
 func TestVfWire(t *testing.T) {
 	st := vfNewStats("wire")
-	st.Rule = "genuine packets (8 message types + compounds up to 255 parts, field extremes) under label x keys(0/1/2, 16/24/32 B) x encryption version x compression x CRC x verify flags, fed to a compatible real receiver; tampered/replayed copies (version, nonce, body, tag, truncation, splice, foreign key, plaintext, label AAD, cross-label); hostile bytes (truncations, mutations, random, lying compounds, nested wrappers); budget runs (sendMsg piggy-back + gossip from full queues); distinct = distinct (kind, class, #deliveries, panic, #keys, protocol version, compression) tuples"
+	st.Rule = "genuine packets (8 message types + compounds up to 255 parts, field extremes) under label x keys(0/1/2, 16/24/32 B) x encryption version x compression x CRC x verify flags, fed to a compatible real receiver; every message type (pings / indirect pings as the probe path writes them, with reply address and host names) alone and compounded, with / without checksum header, from a sender without keys / with keys but sending in clear / sealing to a receiver with a keyring that does not insist on incoming encryption; tampered/replayed copies (version, nonce, body, tag, truncation, splice, foreign key, key history on the receiver between send and arrival: AddKey (also of installed keys) / UseKey / RemoveKey, plaintext, label AAD, cross-label); hostile bytes (truncations, mutations, random, lying compounds, nested wrappers); budget runs (sendMsg piggy-back + gossip rounds to 1-5 targets of mixed protocol versions 2..5 from full queues); distinct = distinct (kind, class, #deliveries, panic, #keys, protocol version, compression) tuples"
 	cases, replay, err := vfLoadCases()
 	if err != nil {
 		t.Fatal(err)
@@ -1187,6 +1307,10 @@ func TestVfWire(t *testing.T) {
 			if g := vwGenuine(r, false); g != nil {
 				cases = append(cases, vwCaseFrom(1, 0, g, g.r, g.wire, st, nil))
 				st.OpHist["genuine"]++
+			}
+			if g := vwTransition(r, i); g != nil {
+				cases = append(cases, vwCaseFrom(1, 0, g, g.r, g.wire, st, nil))
+				st.OpHist["genuine_keyed_nonverifying_receiver"]++
 			}
 			if i%3 == 0 {
 				cases = append(cases, vwTamper(r, st)...)
